@@ -121,6 +121,8 @@ class C11(object):
             t_lo = rnd.choice([0.0, 1.0, 5.0])
             return {"entry": "sparse_connected_pixels/story", "ns": ns, "nf": nf, "kind": "story", "image": np.abs(im).ravel().tolist(),
                     "threshold": t_lo, "t_hi": t_lo + rnd.choice([2.0, 6.0, 11.0]), "explicit_zero": rnd.random() < 0.3,
+                    # an unsorted frame of a detector-sized image (more than 65536 pixels) is sorted, then labelled
+                    "big_sort": rnd.choice([None, None, None, [300, 300], [512, 384], [260, 270]]), "bseed": rnd.getrandbits(32),
                     "cfg": enginea.draw_cfg(rnd, max_team=4), "gstyle": 0, "cut": 0.0}
         if rnd.random() < 0.05:
             # one labelimage object labels a series of frames (its two label images are swapped from frame to frame); some
@@ -226,6 +228,26 @@ class C11(object):
             if viol is None:
                 n3 = sf.sparse_connected_pixels(low)
                 viol = check(low, t_lo, n3, "the first frame labelled again after a sub-frame was derived and labelled")
+            if viol is None and desc.get("big_sort"):
+                bs0, bs1 = desc["big_sort"]
+                gb = np.random.default_rng(desc["bseed"])
+                big = np.zeros((bs0, bs1), np.float32)
+                for _ in range(40):
+                    r0, c0 = int(gb.integers(0, bs0 - 4)), int(gb.integers(0, bs1 - 4))
+                    big[r0:r0 + int(gb.integers(1, 5)), c0:c0 + int(gb.integers(1, 5))] = gb.integers(20, 90)
+                rb, cb = np.nonzero(big > 0)
+                pm = gb.permutation(len(rb))
+                fb = sf.sparse_frame(rb[pm].astype(np.uint16), cb[pm].astype(np.uint16), (bs0, bs1),
+                                     pixels={"intensity": big[rb, cb][pm].copy()})
+                fb.sort()
+                nb = sf.sparse_connected_pixels(fb, threshold=10.0)
+                refb, nrefb = scipy.ndimage.label(big > 10, S8)
+                gotb = np.asarray(fb.pixels["connectedpixels"])
+                if nb != nrefb or canon(gotb) != canon(refb[fb.row, fb.col]) or \
+                        not np.array_equal(np.asarray(fb.pixels["intensity"]), big[fb.row, fb.col]):
+                    viol = {"class": "partition-differs", "key": "sparse_connected_pixels:partition-differs",
+                            "detail": "an unsorted frame of a %dx%d image, sorted with sort() and then labelled: %d labels, the image has %d "
+                                      "components (or another partition / values detached from their pixels)" % (bs0, bs1, nb, nrefb)}
             if viol is None and desc.get("explicit_zero"):
                 n4 = sf.sparse_connected_pixels(low, threshold=0)
                 viol = check(low, 0.0, n4, "the first frame with an explicit threshold of 0")
